@@ -15,7 +15,8 @@ RULE = ('families: (A) every transfer kind under small-integer settings (1..2 ex
         'concurrency/queue/in-memory limits x {no fault, one fault at a sampled boundary, cancel at a sampled boundary}; (B) 2-4 '
         'concurrent mixed transfers contending for 1-slot stages and a 1-token sliding window, with gates making the lowest '
         'part the slowest; (C) cancel landing before the submission task starts (single submission thread parked in an '
-        'earlier transfer\'s on_queued) and inside named race windows (sys.monitoring line steering); (D) subscribers that call '
+        'earlier transfer\'s on_queued), inside named race windows, and at sampled statement lines of every concurrency-relevant '
+        'function (a thread is preempted there until all others are stuck, or a cancel runs concurrently: sys.monitoring line steering); (D) subscribers that call '
         'back into their own future (done/meta/cancel/set_exception from on_queued/on_progress/on_done, result from on_done) in '
         'success, failure, cancelled and cancelled-before-start outcomes; (E) stress: line-level yield injection with a 5 us '
         'switch interval.  Verdict per run: result(), cancel() and shutdown() returned before the /proc-based quiescence '
@@ -157,6 +158,14 @@ def gen_cases(tier, seed):
                 cfg = dict(multipart_threshold=16, multipart_chunksize=8, io_chunksize=4, max_request_concurrency=2)
                 cases.append({'seed': rng.randrange(1 << 30), 'min_part': 8, 'config': cfg, 'transfers': [t], 'family': 'C-window',
                               'yield': {'p': rng.choice([0.0, 0.05]), 'window': dict(wdw, nth=nth, target=0)}})
+    # (C3) systematic line windows: preempt the nth thread reaching a statement of the concurrency-relevant functions until
+    # everybody else has run as far as they can (lost wake-ups), or cancel concurrently while it sits there
+    from .. import windows
+
+    for action, n in (('pause', 60 if quick else 2500), ('cancel', 40 if quick else 1500)):
+        for sp in windows.cases(rng, action, n, core_reps=1 if quick else 4, nths=(0, 1) if quick else (0, 1, 2)):
+            sp['family'] = 'C-line-' + action
+            cases.append(sp)
     # (D) re-entrant subscribers
     for kind, extra in gen.KINDS:
         for where, acts in REENTER.items():
